@@ -43,6 +43,11 @@ class CopyPropagate:
             ):
                 # direct assignment: x = y
                 # substitute all occurences of this definition of `x` with `y`
+                # unless `y` is redefined later: a use of `x` past that point
+                # would then read the new `y`
+                src = def_use.find_def_from_use(d.site.expr)
+                if def_use.successors[src]:
+                    continue
                 if len(def_use.uses[d]) > 0:
                     # optimization: only propagate if there is at least one use
                     prop[d] = d.site.expr
